@@ -9,6 +9,7 @@ import (
 	"crypto/tls"
 	"errors"
 	"fmt"
+	ht "html/template"
 	"io"
 	"io/fs"
 	"net"
@@ -16,7 +17,6 @@ import (
 	"path/filepath"
 	"strings"
 	"testing/fstest"
-	ht "html/template"
 	tt "text/template"
 	"time"
 
@@ -324,7 +324,7 @@ type MsgSpec struct {
 	Headers  [][2]string `json:"headers,omitempty"`
 	Preform  [][2]string `json:"preform,omitempty"` // preformatted generic headers
 	Boundary string      `json:"boundary,omitempty"`
-	PGP      string      `json:"pgp,omitempty"` // "" | encrypt | signature (WithPGPType: the caller supplies PGP/MIME parts)
+	PGP      string      `json:"pgp,omitempty"`   // "" | encrypt | signature (WithPGPType: the caller supplies PGP/MIME parts)
 	NoMsg    bool        `json:"noMsg,omitempty"` // a nil *Msg in the batch
 	// Middlewares: the chain of message middlewares, by type: "reset" (sets the Subject to the
 	// spec's subject), "tag" (appends " [tagged]" to the Subject), "xhdr" (sets X-Middleware).
